@@ -61,7 +61,8 @@ class CFormatter(Formatter):
 
     @override(Formatter)
     def format_import_statement(self, t: Proto, as_name: Optional[str] = None) -> str:
-        return '#include "{0}_bp.h"'.format(t.name)
+        # Include the header file generated for proto t, which is named by its filename.
+        return '#include "{0}"'.format(self.format_out_filename(t, ".h"))
 
     ##################
     # Naming prefix
